@@ -653,6 +653,17 @@ Definition reaction (c : cfg) (s : state) (e : event) : state * list out :=
   | EPoll _ _ => (s, [])
   end.
 
+(* outputs that belong to the main loop (levels 0-2 ignore the shutdown-only ones) *)
+Definition core_out (x : out) : bool :=
+  match x with
+  | OCreate _ | OEnd _ _ => true
+  | OWaitCall _ k _ _ => match k with KMain | KTidy | KCTidy => true | _ => false end
+  | _ => false
+  end.
+Definition core (o : list out) : list out := filter core_out o.
+Definition outs_guards (code : nat) (o mo : list out) : list guard :=
+  [(0, code, outs_match (core o) (core mo)); (3, code + 500, outs_match o mo)].
+
 Definition atomic_id (c : cfg) (j : nat) : bool :=
   negb (j_sched (jc c j)) && Nat.ltb j (njobs c) && negb (rootb j).
 Definition sched_id (c : cfg) (n : nat) : bool := j_sched (jc c n) && Nat.ltb n (njobs c).
@@ -673,28 +684,28 @@ Definition guards (c : cfg) (s : state) (e : event) : list guard :=
       [(0, 1, sched_id c n);
        (0, 2, if rootb n then match ph (Rn s n) with PIdle => true | _ => false end
               else match st (Jb s n) with Created => negb (cp (Jb s n)) | _ => false end);
-       (1, 3, rootb n || slot_free c s (parent c n));
-       (0, 4, outs_match o mo)]
+       (1, 3, rootb n || slot_free c s (parent c n))]
+       ++ outs_guards 4 o mo
   | EWake n KMain d o =>
       let r := Rn s n in
       [(0, 10, run_alive c s n false);
        (0, 11, match ph r with PMain => true | _ => false end);
        (0, 12, seteqb d (filter (jfin s) (pend r)) && nodupb d);
        (0, 13, match d with [] => match expi r with Some _ => true | None => false end | _ => true end);
-       (2, 14, match d with [] => opt_le_now s (expi r) | _ => true end);
-       (0, 15, outs_match o mo)]
+       (2, 14, match d with [] => opt_le_now s (expi r) | _ => true end)]
+       ++ outs_guards 15 o mo
   | EWake n KTidy d o =>
       let r := Rn s n in
       [(0, 20, run_alive c s n false);
        (0, 21, match ph r with PTidy _ => true | _ => false end);
-       (0, 22, forallb (jfin s) (pend r));
-       (0, 23, outs_match o mo)]
+       (0, 22, forallb (jfin s) (pend r))]
+       ++ outs_guards 23 o mo
   | EWake n KCTidy d o =>
       let r := Rn s n in
       [(0, 30, run_alive c s n false);
        (0, 31, match ph r with PCTidy => true | _ => false end);
-       (0, 32, forallb (jfin s) (pend r));
-       (0, 33, outs_match o mo)]
+       (0, 32, forallb (jfin s) (pend r))]
+       ++ outs_guards 33 o mo
   | EWake n KShut p o =>
       let ss := Sd s n in
       let inline := sd_inline s n in
@@ -703,39 +714,39 @@ Definition guards (c : cfg) (s : state) (e : event) : list guard :=
        (3, 42, seteqb p (hpending c s (members c n)) && nodupb p);
        (3, 43, match p with [] => true | _ => opt_le_now s (sdl ss) end);
        (0, 44, if inline && match p with [] => true | _ => false end
-               then culprit_ok c s n (why_of s n) (culprit_of o) else true);
-       (0, 45, outs_match o mo)]
+               then culprit_ok c s n (why_of s n) (culprit_of o) else true)]
+       ++ outs_guards 45 o mo
   | EWake n KShTidy d o =>
       let ss := Sd s n in
       let inline := sd_inline s n in
       [fst (sd_thread_ok c s n false); snd (sd_thread_ok c s n false);
        (3, 51, match sp ss with SdTidy => true | _ => false end);
        (3, 52, forallb (hfin s) (spend ss));
-       (0, 53, if inline && negb (scanc ss) then culprit_ok c s n (why_of s n) (culprit_of o) else true);
-       (0, 54, outs_match o mo)]
+       (0, 53, if inline && negb (scanc ss) then culprit_ok c s n (why_of s n) (culprit_of o) else true)]
+       ++ outs_guards 54 o mo
   | ECancelled n KMain o =>
       [(0, 60, run_alive c s n true);
-       (0, 61, match ph (Rn s n) with PMain => true | _ => false end);
-       (0, 62, outs_match o mo)]
+       (0, 61, match ph (Rn s n) with PMain => true | _ => false end)]
+       ++ outs_guards 62 o mo
   | ECancelled n KTidy o =>
       [(0, 70, run_alive c s n true);
-       (0, 71, match ph (Rn s n) with PTidy _ => true | _ => false end);
-       (0, 72, outs_match o mo)]
+       (0, 71, match ph (Rn s n) with PTidy _ => true | _ => false end)]
+       ++ outs_guards 72 o mo
   | ECancelled n KCTidy o =>
       [(0, 80, run_alive c s n true);
-       (0, 81, match ph (Rn s n) with PCTidy => true | _ => false end);
-       (0, 82, outs_match o mo)]
+       (0, 81, match ph (Rn s n) with PCTidy => true | _ => false end)]
+       ++ outs_guards 82 o mo
   | ECancelled n k o =>
       [fst (sd_thread_ok c s n true); snd (sd_thread_ok c s n true);
-       (3, 91, match sp (Sd s n), k with SdWait, KShut => true | SdTidy, KShTidy => true | _, _ => false end);
-       (0, 92, outs_match o mo)]
+       (3, 91, match sp (Sd s n), k with SdWait, KShut => true | SdTidy, KShTidy => true | _, _ => false end)]
+       ++ outs_guards 92 o mo
   | ESdStart n o =>
       [(0, 100, sched_id c n);
        (3, 101, match hs (Hd s n) with
                 | HCreated => negb (hcp (Hd s n))
                 | _ => rootb n && match ph (Rn s n) with POver => true | _ => false end
-                end);
-       (0, 102, outs_match o mo)]
+                end)]
+       ++ outs_guards 102 o mo
   | EStart j =>
       [(0, 110, atomic_id c j);
        (0, 111, match st (Jb s j) with Created => negb (cp (Jb s j)) | _ => false end);
